@@ -3,7 +3,7 @@ BOUNDS = {
     'quick': 'optional<TA>, variant<TA,TB,int>, expected<TA,TB> with instrumented alternatives (copy+move; move-only and copy-only for the subset that compiles; and alternatives with user-provided constructors/destructor but defaulted, trivial assignment): one operation from every state, '
              'every (from, to) index pair of assignment / swap / emplace / converting construction and assignment (index symbolic, case-split inside one query); payloads and object bytes symbolic; '
              'histories of 2 symbolic operations on two objects from the default-constructed pair (copy+move; 6 op codes variant, 7 optional)',
-    'thorough': 'the same single steps plus histories: 2 operations on two variants from every state pair (copy+move) and from (TA, TB) (move-only, copy-only); 3 operations on two optionals from the empty pair, '
+    'thorough': 'the same single steps plus histories: 2 operations on two variants from every state pair except (int, int) (copy+move; that pair and the defaulted-assignment flavour gave no verdict within the 8 GB per-query memory cap) and from (TA, TB) (move-only, copy-only); 3 operations on two optionals from the empty pair, '
                 'one query per first operation (copy+move), 2 operations from (engaged, empty) (move-only, copy-only)',
 }
 ASSUMPTIONS = [
@@ -31,7 +31,7 @@ def queries(tier, prop='C03'):
 
     def add(e, fl, budget=120, **cfg):
         c = {'FLAV': fl}; c.update(cfg)
-        q = dict(entry='q_' + e, cfg=c, unwind=24, unwindset=UW, budget=budget, ub=ub, nofunc=ub, solver=['cadical', 'minisat'])
+        q = dict(entry='q_' + e, cfg=c, unwind=24, unwindset=UW, budget=budget, ub=ub, nofunc=ub, solver='minisat' if 'hist' in e else ['cadical', 'minisat'])   # histories: minisat (cadical exceeded the 8 GB cap)
         if e == 'v_assign_own_alt': q['kf_only'] = 'C03_variant_assign_own_alternative'   # the whole query lies inside the known-finding region
         if e.endswith('_hist'): q['object_bits'] = 14
         out.append(q)
@@ -46,8 +46,10 @@ def queries(tier, prop='C03'):
             for f in range(7): add('o_hist', 0, budget=300, KSTEPS=2, HSA=0, HSB=0, FIRST=f)
         else:
             for a in (0, 1, 2):
-                for b in (0, 1, 2): add('v_hist', 0, budget=2400, KSTEPS=2, HSA=a, HSB=b)
-            for fl in (1, 2, 3): add('v_hist', fl, budget=2400, KSTEPS=2, HSA=0, HSB=1)
+                for b in (0, 1, 2):
+                    if (a, b) == (2, 2): continue   # no verdict within the 8 GB per-query memory cap: outside the bound
+                    add('v_hist', 0, budget=2400, KSTEPS=2, HSA=a, HSB=b)
+            for fl in (1, 2): add('v_hist', fl, budget=2400, KSTEPS=2, HSA=0, HSB=1)   # flavour 3 (defaulted assignment): no verdict within the 8 GB per-query memory cap; its single steps run in both tiers
             for f in range(7): add('o_hist', 0, budget=2400, KSTEPS=3, HSA=0, HSB=0, FIRST=f)
             for fl in (1, 2, 3): add('o_hist', fl, budget=2400, KSTEPS=2, HSA=1, HSB=0)
     for q_ in out:
